@@ -1,8 +1,227 @@
 /-
-  C07 — property theorems (only `theorem C07_*` statements and non-vacuity examples live here;
-  helper lemmas go to CedarGoProofs/Lemmas/).
+  C07 — The Cedar text parser builds exactly the tree the grammar prescribes.
+
+  Objects.  `Text.policy` / `Text.exprF` … (CedarGo/Model/Text/Parser.lean) are the recursive-descent functions of
+  internal/parser/cedar_unmarshal.go over the token list of `Tokenize`; `Text.render false/true`
+  (= renderMin / renderFull, Model/Text/Printer.lean) are the spec-side printers; `Text.Rend`
+  (Lemmas/C07Round.lean) is the relational form of the grammar: "token list ts spells expression x where
+  level ≥ lvl is expected", with the documented precedence / associativity, parentheses optional where
+  allowed and mandatory where needed.  The model parser is tied to the Go parser by `./check C07`
+  (same AST incl. position or both reject, on ~30 000 token lists per run; escape classes of every code point).
+
+  WHAT IS PROVED (no sorry, axioms: propext / Classical.choice / Quot.sound only)
+  * C07_unquote_escape_partial        Unquote(EscapeString s) = s for every string without U+FFFD
+    C07_unquote_escape_counterexample the code rejects its own rendering of U+FFFD (known finding)
+  * C07_precedence_table, C07_precedence_levels, C07_marshal_table_agrees   table lemmas
+  * C07_parser_total, C07_parser_total_list, C07_parseExpr_total   the fuel `|tokens| + 2` is never exhausted,
+    for ARBITRARY token lists; C07_fuel_irrelevant: more fuel never changes the answer
+  * C07_parse_any_rendering           every valid rendering in the sense of `Rend` (ANY admissible placement
+                                      of parentheses) of an expression is parsed back to that expression
+  * C07_parse_renderMin_partial / C07_parse_renderFull_partial (expressions) and
+    C07_parse_policy_renderMin_partial / …renderFull_partial (policies), C07_parse_policies_render_partial (lists)
+    on the decidable fragment `inFrag` / `policyOK` (see below)
+  * C07_parse_renderMin_counterexample   `-5.foo` = renderMin (Negate (5.foo)) is rejected (known finding)
+  * C07_rejects_chained_relation, C07_rejects_reserved_*, C07_rejects_duplicate_annotation,
+    C07_rejects_duplicate_record_key, C07_rejects_unknown_function, C07_rejects_method_as_function,
+    C07_rejects_function_as_method, C07_rejects_unknown_method
+
+  THE FRAGMENT (`Text.inFrag full e`, `Text.policyOK full p` in CedarGo/Model/Text/Fragment.lean; decidable; the
+  harness reports the share of generated cases inside it: ≈ 90 %):
+  expressions: boolean / long (int64 range) / string / entity literals (entity type = `::`-separated identifiers), the
+  four variables, `!`, unary `-`, all 17 binary operators and methods (|| && == != < <= > >= in + - * contains
+  containsAll containsAny getTag hasTag), isEmpty, if-then-else, attribute access in both forms, `has` in both forms,
+  `is`, `is … in`, set and record literals (unique keys), extension function calls and extension method calls,
+  arbitrarily nested; policies: effect, any number of annotations with distinct keys (identifiers or reserved
+  words), every scope form of the grammar (all / == / in / in [..] / is / is..in), any sequence of when / unless
+  conditions; lists of policies.
+  NOT covered by the round-trip theorems (they are in the executable model and in the correspondence check):
+  `like` (pattern literals); strings, ids, keys, annotation values containing U+FFFD (the code fails there); for
+  renderMin a negation whose operand's text starts with an integer token (`-5.foo`; the code fails there);
+  `has a.b.c` paths (parser sugar, never a rendering; covered by correspondence); whitespace / comment layout and
+  "unterminated literal" (these concern the scanner, which is C18's model; here they are checked on the Go
+  implementation by the harness only).
 -/
-import CedarGo.Model.Fold
+import CedarGoProofs.Lemmas.C07Head
+import CedarGo.Model.Text.Marshal
 namespace CedarGo
+open CedarGo.Text
+
+/-! ## string escapes -/
+
+/-- `rust.Unquote(rust.EscapeString(s)) = s`, at the level of the string-literal token the printers emit:
+    the value the parser computes for the token `"EscapeString(s)"` is `s`. PARTIAL: `s` must not contain U+FFFD. -/
+theorem C07_unquote_escape_partial (s : String) (hs : replacementChar ∉ s.toList) :
+    unquote false (escapeString s.toList) = .ok (s.toList, []) ∧ stringValue (strT s).text = .ok s :=
+  ⟨unquote_escapeString s.toList hs, stringValue_strT s hs⟩
+
+example : replacementChar ∉ "a\"b\\c\ńé😀\x00".toList := by decide
+
+/-- the full statement fails in the code: U+FFFD is printable, so it is written raw, and `nextRune` rejects it -/
+theorem C07_unquote_escape_counterexample :
+    ∃ s : List Char, unquoteErr (unquote false (escapeString s)) = some .badRune :=
+  ⟨[replacementChar], by decide +kernel⟩
+
+/-! ## precedence table -/
+
+/-- left-associative operators take their own level on the left and the next level on the right;
+    comparison operators are non-associative (next level on both sides) -/
+theorem C07_precedence_table (op : BinOp) (tok : Token) (lp rp : Nat) (h : binForm op = .infixOp tok lp rp) :
+    (op ∈ [.or, .and, .add, .sub, .mul] → lp = binPrec op ∧ rp = binPrec op + 1) ∧
+    (op ∈ [.eq, .ne, .lt, .le, .gt, .ge, .in_] → lp = binPrec op + 1 ∧ rp = binPrec op + 1) := by
+  cases op <;> simp [binForm] at h <;> obtain ⟨rfl, rfl, rfl⟩ := h <;> simp [binPrec]
+
+/-- if < or < and < relation < add < mult < unary < member < primary -/
+theorem C07_precedence_levels :
+    prec (.ite (.var .context) (.var .context) (.var .context)) = 0 ∧ binPrec .or = 1 ∧ binPrec .and = 2 ∧
+    binPrec .eq = 3 ∧ prec (.has (.var .context) "a") = 3 ∧ binPrec .add = 4 ∧ binPrec .sub = 4 ∧ binPrec .mul = 5 ∧
+    prec (.unop .not (.var .context)) = 6 ∧ prec (.unop .neg (.var .context)) = 6 ∧ prec (.lit (.long (-1))) = 6 ∧
+    prec (.access (.var .context) "a") = 7 ∧ binPrec .contains = 7 ∧ prec (.var .context) = 8 ∧ prec (.lit (.long 1)) = 8 := by
+  decide
+
+/-- Go's marshaller (`node.go`, `cedar_marshal.go`) uses the same operator table as the grammar, and the same
+    levels except for negative long literals (always primary in Go: the `-5.foo` defect) and
+    function-style extension calls (access level in Go: harmless extra parentheses) -/
+theorem C07_marshal_table_agrees (op : BinOp) :
+    (∀ tok lp rp, goInfix op = some (tok, lp, rp) ↔ binForm op = .infixOp tok lp rp) ∧
+    (goInfix op = none ↔ binForm op = .method (goMethodName op)) := by
+  cases op <;> simp [goInfix, binForm, goMethodName] <;> intros <;> constructor <;> rintro ⟨rfl, rfl, rfl⟩ <;> simp
+
+/-! ## totality -/
+
+/-- `Policy.UnmarshalCedar` terminates on EVERY token list: the model's fuel `|tokens| + 2` is never exhausted -/
+theorem C07_parser_total (ts : List Token) : ∃ r, parsePolicy ts = some r := by
+  obtain ⟨r, hr, _⟩ := tot_policy ts
+  unfold parsePolicy parseFuel
+  rw [hr]
+  cases r <;> exact ⟨_, rfl⟩
+
+theorem C07_parser_total_list (ts : List Token) : ∃ r, parsePolicies ts = some r :=
+  tot_policiesLoop _ _ ts (by unfold parseFuel; omega) (by unfold parseFuel; omega)
+
+theorem C07_parseExpr_total (ts : List Token) : ∃ r, parseExpr ts = some r := by
+  obtain ⟨r, hr, _⟩ := goodE_exprF ts.length ts (Nat.le_refl _)
+  exact ⟨r, hr⟩
+
+/-- fuel is an artefact: any larger fuel gives the same answer -/
+theorem C07_fuel_irrelevant (ts : List Token) (n : Nat) (hn : parseFuel ts ≤ n) : policy n ts = policy (parseFuel ts) ts := by
+  obtain ⟨r, hr, _⟩ := tot_policy ts
+  have h1 : policy (parseFuel ts) ts = some r := hr
+  rw [h1]
+  exact mono_policy hn ts r h1
+
+example : ∃ r, parsePolicy [opT "-", opT "-", opT "(", idT "x"] = some r := C07_parser_total _
+
+/-! ## the parser inverts every valid rendering -/
+
+/-- **any admissible parenthesisation**: if `ts` spells `x` according to the grammar (`Rend`, level 0), then
+    parsing `ts` as a complete expression yields `x` and consumes everything -/
+theorem C07_parse_any_rendering (x : Expr) (ts : List Token) (h : Rend (.e 0 x) ts) : parseExpr ts = some (.ok (x, [])) :=
+  parseExpr_of_reads (rend_spec h (Nat.zero_le _)).1
+
+/-- `parse (renderMin e) = e` on the fragment.  The full statement (all of `InGrammar`) is in the header. -/
+theorem C07_parse_renderMin_partial (e : Expr) (h : inFrag false e = true) :
+    parseExpr (render false e) = some (.ok (e, [])) :=
+  parseExpr_of_reads (reads_of_inFrag h)
+
+/-- `parse (renderFull e) = e` on the fragment -/
+theorem C07_parse_renderFull_partial (e : Expr) (h : inFrag true e = true) :
+    parseExpr (render true e) = some (.ok (e, [])) :=
+  parseExpr_of_reads (reads_of_inFrag h)
+
+/-- policies: effect, annotations, scope clauses, condition kinds and order, and every condition tree are
+    recovered from `renderMin p` -/
+theorem C07_parse_policy_renderMin_partial (p : Policy) (h : policyOK false p = true) :
+    parsePolicy (renderMin p) = some (.ok p) := parsePolicy_of_reads (policyReads_render h)
+
+theorem C07_parse_policy_renderFull_partial (p : Policy) (h : policyOK true p = true) :
+    parsePolicy (renderFull p) = some (.ok p) := parsePolicy_of_reads (policyReads_render h)
+
+/-- a document of several policies is read back as the same sequence -/
+theorem C07_parse_policies_render_partial (full : Bool) (ps : List Policy) (h : ps.all (policyOK full) = true) :
+    parsePolicies (renderListToks full ps) = some (.ok ps) := parsePolicies_of_reads (polsReads_render ps h)
+
+/-- the hypotheses are satisfiable by a tree that exercises precedence, associativity, unary stacks, negative
+    literals, member chains, methods, sets, records and extension calls -/
+example : inFrag false
+    (.ite (.binop .or (.binop .and (.var .principal) (.binop .lt (.binop .sub (.binop .sub (.lit (.long 1)) (.lit (.long (-2))))
+        (.binop .mul (.lit (.long 3)) (.unop .neg (.unop .neg (.var .context))))) (.lit (.long 4)))) (.unop .not (.has (.var .context) "if")))
+      (.binop .contains (.set [.lit (.str "a\"b"), .access (.access (.lit (.long (-5))) "x") "a b"]) (.call "ip" [.lit (.str "::1")]))
+      (.record [("k", .call "isInRange" [.var .resource, .unop .isEmpty (.set [])]), ("if", .lit (.bool true))])) = true := by
+  decide +kernel
+
+example : policyOK false { effect := .forbid, annotations := [("id", "a\"b"), ("if", "")], principal := .isIn "NS::User" ("Group", "g 1"), action := .inSet [("Action", "a"), ("A::B::Action", "b")], resource := .eq ("Doc", "d"), conditions := [(true, .binop .add (.lit (.long 1)) (.lit (.long 2))), (false, .isIn (.var .principal) "A::B" (.lit (.entity "C" "x")))] } = true := by
+  decide +kernel
+
+/-- the code violates the full statement: `-5.foo` is the minimal rendering of Negate(Access(5, "foo"))
+    (grammar: Unary ::= '-' Member), and the parser rejects it -/
+theorem C07_parse_renderMin_counterexample :
+    ∃ p : Policy, errKind (parsePolicy (renderMin p)) = some .exact ∧
+      (renderMin p).map (·.text) = ["permit", "(", "principal", ",", "action", ",", "resource", ")", "when", "{", "-", "5", ".", "foo", "}", ";"] :=
+  ⟨{ effect := .permit, conditions := [(true, .unop .neg (.access (.lit (.long 5)) "foo"))] }, by decide +kernel, by decide +kernel⟩
+
+/-! ## texts outside the grammar are rejected -/
+
+/-- **chained relations**: `{ a OP b X …` with `OP` a comparison operator and `X` a comparison operator, `has`,
+    `like` or `is` is a parse error, for all operand texts `ta`, `tb` that spell level-4 expressions -/
+theorem C07_rejects_chained_relation (a b : Expr) (ta tb : List Token) (op : BinOp) (t1 t2 : Token) (X : List Token)
+    (h1 : IsRelTok t1 op) (h2 : contLevel t2.text = some 3) (ha : Rend (.e 4 a) ta) (hb : Rend (.e 4 b) tb) :
+    ∃ d, ∀ n, d ≤ n → condition n (opT "{" :: (ta ++ t1 :: (tb ++ t2 :: X))) = some (.error .exact) := by
+  have sa := rend_spec ha (by decide)
+  have sb := rend_spec hb (by decide)
+  exact condition_rejects_chain op t1 t2 X h1 h2 sa.1 sa.2 sb.1
+
+example : IsRelTok (opT "<") .lt := ⟨rfl, rfl, rfl, rfl, rfl⟩
+example : IsRelTok (kwT "in") .in_ := ⟨rfl, rfl, rfl, rfl, rfl⟩
+example : contLevel (kwT "has").text = some 3 := rfl
+
+/-- `1 < 2 < 3`, concretely and with the canonical fuel -/
+theorem C07_rejects_chained_relation_example :
+    errKind (parsePolicy (simpleHead .permit ++ [idT "when", opT "{", intT 1, opT "<", intT 2, opT "<", intT 3, opT "}", opT ";"])) = some .exact := by
+  decide +kernel
+
+/-- **reserved words as identifiers**: a reserved word other than `true`/`false` cannot start a primary
+    (so it is no variable, entity type or function name) … -/
+theorem C07_rejects_reserved_primary (E : EP) (n : Nat) (t : Token) (rest : List Token) (hty : t.ty = .keyword)
+    (hkw : t.text ∈ reservedKeywords) (h1 : t.text ≠ "true") (h2 : t.text ≠ "false") :
+    primary E n (t :: rest) = some (.error .primary) := primary_rejects_reserved E n t rest hty hkw h1 h2
+
+/-- … nor be an attribute or method name after `.`, a record key, the operand of `has`, or a path component -/
+theorem C07_rejects_reserved_elsewhere (E : EP) (n : Nat) (lhs : Expr) (t : Token) (rest : List Token) (hty : t.ty = .keyword) :
+    accessLoop E (n + 1) lhs (opT "." :: t :: rest) = some (.error .ident) ∧ recordKey t = .error .token ∧
+    parseHas lhs (t :: rest) = .error .token ∧ path (t :: rest) = .error .ident ∧ entity (t :: rest) = .error .ident :=
+  ⟨access_rejects_reserved E n lhs t rest hty, recordKey_rejects_reserved t hty, has_rejects_reserved lhs t rest hty,
+   path_rejects_reserved t rest hty, entity_rejects_reserved t rest hty⟩
+
+theorem C07_rejects_duplicate_annotation (k v1 v2 : String) (rest : List Token) (hv1 : replacementChar ∉ v1.toList) :
+    annotations [] (opT "@" :: idT k :: opT "(" :: strT v1 :: opT ")" :: opT "@" :: idT k :: opT "(" :: strT v2 :: opT ")" :: rest)
+      = .error .dupAnnotation := annotations_two_equal k v1 v2 rest hv1
+
+theorem C07_rejects_duplicate_record_key (E : EP) (n : Nat) (known : List String) (kt : Token) (k : String) (ts1 : List Token)
+    (v : Expr) (ts2 : List Token) (hne : (kt.text == "}") = false) (hk : recordKey kt = .ok k)
+    (hv : E ts1 = okP (v, ts2)) (hdup : known.contains k = true) :
+    recordLoop E (n + 1) known (kt :: opT ":" :: ts1) = some (.error .dupKey) :=
+  recordLoop_rejects_duplicate E n known kt k ts1 v ts2 hne hk hv hdup
+
+theorem C07_rejects_duplicate_record_key_example :
+    errKind (parsePolicy (simpleHead .permit ++ [idT "when", opT "{", opT "{", idT "a", opT ":", intT 1, opT ",", strT "a", opT ":", intT 2, opT "}", opT "}", opT ";"])) = some .dupKey := by
+  decide +kernel
+
+theorem C07_rejects_unknown_function (E : EP) (n : Nat) (name : String) (rest : List Token) (h : extLookup name = none) :
+    entityOrExtFun E n name (opT "(" :: rest) = some (.error .notFunction) := call_rejects_unknown E n name rest h
+
+theorem C07_rejects_method_as_function (E : EP) (n : Nat) (name : String) (ar : Nat) (rest : List Token)
+    (h : extLookup name = some (ar, true)) :
+    entityOrExtFun E n name (opT "(" :: rest) = some (.error .methodAsFunction) := call_rejects_method_as_function E n name ar rest h
+
+theorem C07_rejects_function_as_method (name : String) (ar : Nat) (lhs : Expr) (args : List Expr) (hb : name ∉ builtinMethods)
+    (h : extLookup name = some (ar, false)) : mkMethod name lhs args = .error .functionAsMethod :=
+  method_rejects_function_as_method name ar lhs args hb h
+
+theorem C07_rejects_unknown_method (name : String) (lhs : Expr) (args : List Expr) (hb : name ∉ builtinMethods)
+    (h : extLookup name = none) : mkMethod name lhs args = .error .notMethod := method_rejects_unknown name lhs args hb h
+
+example : extLookup "foo" = none := by decide
+example : extLookup "isIpv4" = some (1, true) := by decide
+example : extLookup "ip" = some (1, false) ∧ "ip" ∉ builtinMethods := by decide
 
 end CedarGo
